@@ -43,7 +43,12 @@ func Partitions(n int) *PartitionIterator {
 	for i := range b {
 		b[i] = 1
 	}
-	return &PartitionIterator{n: n, m: 1, a: a, b: b}
+	m := 1
+	if n == 1 {
+		//The only restricted growth string is 0.
+		m = 0
+	}
+	return &PartitionIterator{n: n, m: m, a: a, b: b}
 }
 
 //Next tries to advance pi to the next partition, returning true if there is one and false if there isn't.
